@@ -387,11 +387,23 @@ def _probe_builders():
 def probe():
     """flatten / unflatten facts for an operator of every kind; returns a JSON-able dict"""
     out = {}
-    for name, (ctor, params) in _probe_builders().items():
-        rec = {}
+    for name, (ctor, params), used in [(n, b, u) for n, b in _probe_builders().items() for u in (False, True)]:
+        rec = {} if used else {"moved_dtype_ok": True}
         try:
             params = {k: v.copy() for k, v in params.items()}
             A = ctor(params)
+            if used:
+                # the same probe on an operator that has already been used: any state a product / densification / transpose left behind
+                # (a cached matrix, a memoised factor) must not travel through flatten into the rebuilt operator
+                name = name + "|used"
+                g = np.random.default_rng(5)
+                X = g.integers(-2, 3, size=(A.shape[1], 2)).astype(np.float64)
+                Y = g.integers(-2, 3, size=(2, A.shape[0])).astype(np.float64)
+                for warm in (lambda: A @ X, lambda: A.to_dense(), lambda: Y @ A, lambda: A.T @ Y.T, lambda: A.H.to_dense()):
+                    try:
+                        warm()
+                    except Exception:
+                        pass
             leaves, unflatten = A.flatten()
             arr_leaves = [x for x in leaves if isinstance(x, np.ndarray)]
             rec["non_array_leaves"] = sorted(type(x).__name__ for x in leaves if not isinstance(x, np.ndarray))
@@ -424,6 +436,18 @@ def probe():
                 if not np.array_equal(np.asarray(A.to_dense()), D0):
                     rec["original_changed_by_substitution"] = True
             rec["substituted_leaf_changes_exactly_that_parameter"] = subs_ok
+            if used:
+                # a dtype move of a used operator (cola documents dtype changes as unsupported, so only the VALUES are judged): A.to(None,
+                # float32 / complex64) must still represent the same matrix up to single-precision rounding and leave the original alone
+                lowd = np.complex64 if np.dtype(A.dtype).kind == "c" else np.float32
+                try:
+                    Bl = A.to(None, lowd)
+                    xl = np.ones((A.shape[1], 1), dtype=lowd)
+                    yl = np.asarray(Bl @ xl)
+                    rec["moved_dtype_ok"] = bool(np.allclose(yl, D0 @ xl.astype(D0.dtype), rtol=1e-4, atol=1e-4)
+                                                 and np.array_equal(np.asarray(A.to_dense()), D0))
+                except NotImplementedError:
+                    rec["moved_dtype_ok"] = True
         except Exception as e:
             rec["exception"] = f"{type(e).__name__}: {str(e)[:120]}"
         out[name] = rec
@@ -431,7 +455,7 @@ def probe():
 
 
 EXPECT = {"non_array_leaves": [], "leaves_are_exactly_the_parameters": True, "roundtrip_same_class": True, "roundtrip_same_shape_dtype": True,
-          "roundtrip_same_annotations": True, "roundtrip_same_dense": True, "substituted_leaf_changes_exactly_that_parameter": True}
+          "roundtrip_same_annotations": True, "roundtrip_same_dense": True, "substituted_leaf_changes_exactly_that_parameter": True, "moved_dtype_ok": True}
 
 
 _REG_RESULTS = {}
